@@ -27,7 +27,7 @@ PARALLEL = 12
 def floors(tier):
     k = 1 if tier == "quick" else 4
     return {"surface_checks": 600 * k, "mixin_calls": 500 * k, "transport:rest": 70 * k, "transport:aio": 150 * k, "absent_confirmed": 250 * k,
-            "override_cases": 4 * k, "add_iam_cases": 5 * k, "add_iam_with_iam_in_yaml": 2 * k, "absent_although_rules_present": 20 * k}
+            "override_cases": 4 * k, "add_iam_cases": 5 * k, "add_iam_with_iam_in_yaml": 2 * k, "absent_although_rules_present": 20 * k, "rest_requests_reconstructed": 60 * k, "rest_only_cases": 2 * k}
 
 
 def plan(seed, tier):
@@ -49,6 +49,14 @@ def plan(seed, tier):
                 cases.append({"id": f"mix-{seed}-{i}", "seed": seed * 100003 + i, "mixins": sub, "mode": "all", "own_iam": None, "add_iam": False,
                               "unlisted": rest_ if (i + rep) % 2 else rest_[-1:]})
                 i += 1
+        # REST as the only transport
+        for sub_, mode_ in ((["locations", "iam", "operations"], "all"), (["operations", "locations"], "some"), (["iam"], "all")):
+            cases.append({"id": f"mix-{seed}-{i}", "seed": seed * 100003 + i, "mixins": sub_, "mode": mode_, "own_iam": None, "add_iam": False, "rest_only": True})
+            i += 1
+        # the whole API in a proto sub-package
+        for sub_, mode_ in ((["locations", "iam", "operations"], "all"), (["operations"], "some"), (["iam", "locations"], "some")):
+            cases.append({"id": f"mix-{seed}-{i}", "seed": seed * 100003 + i, "mixins": sub_, "mode": mode_, "own_iam": None, "add_iam": False, "subpkg": True})
+            i += 1
         for own in (["SetIamPolicy"], ["GetIamPolicy", "TestIamPermissions"], ["SetIamPolicy", "GetIamPolicy", "TestIamPermissions"], ["TestIamPermissions"]):
             for sub in (["iam"], ["iam", "operations"], ["locations", "iam", "operations"]):
                 cases.append({"id": f"mix-{seed}-{i}", "seed": seed * 100003 + i, "mixins": sub, "mode": "all", "own_iam": own, "add_iam": False})
@@ -65,8 +73,11 @@ def build_api(case):
     rng = random.Random(case["seed"])
     prefix = rng.choice(["/v1", "/v1beta1", "/v2/x", "/api/v1"])
     tr = "grpc" if case["add_iam"] else rng.choice(["grpc+rest", "grpc+rest", "rest+grpc"])
-    return apigen.mixin_api(rng, "m%d" % (case["seed"] % 100000), case["mixins"], case["mode"], own_iam=case["own_iam"],
-                            add_iam=case["add_iam"], transport=tr, prefix=prefix, unlisted=case.get("unlisted") or ())
+    if case.get("rest_only"):
+        tr = "rest"          # a REST-only library: the mixin RPCs are there and callable all the same
+    api = apigen.mixin_api(rng, "m%d" % (case["seed"] % 100000), case["mixins"], case["mode"], own_iam=case["own_iam"],
+                           add_iam=case["add_iam"], transport=tr, prefix=prefix, unlisted=case.get("unlisted") or ())
+    return apigen.into_subpackage(api) if case.get("subpkg") else api
 
 
 def expected_methods(api):
@@ -115,6 +126,7 @@ def run_case(case):
         if meth == "set_iam_policy":
             x.policy.version = 3
             x.policy.etag = b"\x01\x02"
+            x.update_mask.paths.extend(["bindings", "etag"])
         y = model.new(rs_)
         if rs_.endswith("Operation"):
             y.name = "projects/p1/operations/o1"
@@ -131,7 +143,8 @@ def run_case(case):
             y.operations.add().name = "o7"
         elif rs_.endswith("TestIamPermissionsResponse"):
             y.permissions.append("a.b.c")
-        for tr in ["grpc", "aio"] + (["rest"] if rest and not api.info["add_iam"] else []):
+        has_grpc = any(o_.startswith("transport=") and "grpc" in o_ for o_ in api.options)
+        for tr in (["grpc", "aio"] if has_grpc else []) + (["rest"] if rest and not api.info["add_iam"] else []):
             for form in ("message", "dict"):
                 if form == "dict" and tr == "rest":
                     continue
@@ -144,8 +157,9 @@ def run_case(case):
     own_calls = []
     for n in api.info["own_iam"]:
         own_calls.append({"method": rdm.snake(n), "rpc": n})
-    script = {"root_pkg": apigen.lib_root(api.info, api.options), "all_methods": sorted(MIXIN_METHODS), "calls": calls, "own_calls": own_calls,
-              "rest": rest and not api.info["add_iam"]}
+    script = {"root_pkg": apigen.runner_root(api), "all_methods": sorted(MIXIN_METHODS), "calls": calls, "own_calls": own_calls,
+              "rest": rest and not api.info["add_iam"],
+              "grpc": any(o_.startswith("transport=") and "grpc" in o_ for o_ in api.options)}
     ev, rc, err = pipeline.run_runner("checks.c17", script, lib, timeout=250)
     if ev is None or "runner_crash" in ev or "library_import_error" in ev:
         return pipeline.runner_failed_result(ev, rc, err, api)
@@ -164,7 +178,10 @@ def run_case(case):
     base_mech = {"mixins": case["mixins"], "mode": case["mode"], "own_iam": bool(case["own_iam"]), "add_iam": case["add_iam"],
                  "rules_for_unlisted": sorted(api.info.get("unlisted_with_rules", []))}
     # surface
-    for kind in ("sync", "async"):
+    has_grpc_ = any(o_.startswith("transport=") and "grpc" in o_ for o_ in api.options)
+    if not has_grpc_:
+        bump("rest_only_cases")
+    for kind in (("sync", "async") if has_grpc_ else ("sync",)):
         have = set(ev["surface"][kind])
         for meth in MIXIN_METHODS:
             if meth in iam_names and (own or api.info["add_iam"]):
@@ -223,17 +240,52 @@ def run_case(case):
             if e["verb"] != verb.upper() or urllib.parse.unquote(e["path"]) != want_path:
                 bad("rest-verb-or-path", f"{e['verb']} {e['path']} expected {verb.upper()} {want_path}")
             body = rdm.unb64(e["body"])
-            if rule.get("body"):
-                try:
-                    bm = model.new(c["req_type"])
-                    json_format.Parse(body.decode("utf-8") or "{}", bm)
-                    setattr(bm, c["field"], c["value"])
-                    if bm != sent:
-                        bad("rest-body", f"body {body[:200]!r} does not carry the rest of the request")
-                except Exception as ex:  # noqa
-                    bad("rest-body", f"{type(ex).__name__}: {ex}: {body[:120]!r}")
-            elif body not in (b"", b"{}"):
+            bf = rule.get("body")
+            if not bf and body not in (b"", b"{}"):
                 bad("rest-body", f"unexpected body {body[:120]!r} for a rule without body")
+            # reconstruction: path variable + query string + body (the whole request for "*", the named field otherwise) = the request
+            try:
+                bm = model.new(c["req_type"])
+                qd = {}
+                for k, v in urllib.parse.parse_qsl(e.get("query") or "", keep_blank_values=True):
+                    if k.startswith("$"):
+                        continue
+                    cur = qd
+                    parts = k.split(".")
+                    for pp in parts[:-1]:
+                        cur = cur.setdefault(pp, {})
+                    if parts[-1] in cur:
+                        cur[parts[-1]] = (cur[parts[-1]] if isinstance(cur[parts[-1]], list) else [cur[parts[-1]]]) + [v]
+                    else:
+                        cur[parts[-1]] = v
+
+                def fix_repeated(d, desc):
+                    for k, v in list(d.items()):
+                        fd = next((f for f in desc.fields if f.json_name == k or f.name == k), None)
+                        if fd is None:
+                            continue
+                        if fd.label == fd.LABEL_REPEATED and not isinstance(v, list):
+                            d[k] = [v]
+                        elif isinstance(v, dict) and fd.message_type is not None:
+                            fix_repeated(v, fd.message_type)
+                fix_repeated(qd, bm.DESCRIPTOR)
+                json_format.ParseDict(qd, bm)
+                if bf == "*":
+                    json_format.Parse(body.decode("utf-8") or "{}", bm)
+                elif bf:
+                    if body not in (b"", b"{}") or sent.HasField(bf):
+                        json_format.Parse(body.decode("utf-8") or "{}", getattr(bm, bf))
+                    if any(k in qd for k in (bf, bf.split("_")[0] + "".join(w.capitalize() for w in bf.split("_")[1:]))):
+                        bad("rest-query", f"the body field {bf!r} also travels in the query: {e.get('query')!r}")
+                setattr(bm, c["field"], c["value"])
+                if bm != sent:
+                    bump("rest_reconstruction_differs")
+                    bad("rest-body" if bf == "*" else "rest-query-or-body", f"query {e.get('query')!r} + body {body[:160]!r} do not reconstruct the request "
+                        f"(rule body: {bf!r}); rebuilt {str(bm)[:160]!r}")
+                else:
+                    bump("rest_requests_reconstructed")
+            except Exception as ex:  # noqa
+                bad("rest-body", f"{type(ex).__name__}: {ex}: query {e.get('query')!r} body {body[:120]!r}")
         # reply
         if c["resp_type"] == "google.protobuf.Empty":
             if r["returned"] != [None, None]:
@@ -263,9 +315,10 @@ def in_runner(script):
     lib = rt.Lib(script["root_pkg"])
     srv = rt.GrpcServer()
     http = rt.HttpServer()
-    C, A = lib.client_cls("Vault"), lib.client_cls("Vault", asyn=True)
-    surface = {"sync": [m for m in script["all_methods"] if hasattr(C, m)], "async": [m for m in script["all_methods"] if hasattr(A, m)]}
-    gc = lib.grpc_client("Vault", srv.target)
+    C = lib.client_cls("Vault")
+    A = getattr(lib.root, "VaultAsyncClient", None)
+    surface = {"sync": [m for m in script["all_methods"] if hasattr(C, m)], "async": [m for m in script["all_methods"] if A is not None and hasattr(A, m)]}
+    gc = lib.grpc_client("Vault", srv.target) if script.get("grpc", True) else None
     rc = lib.rest_client("Vault", http.host) if script["rest"] else None
     results = [None] * len(script["calls"])
     own_results = [{"grpc": {}, "aio": {}} for _ in script["own_calls"]]
@@ -295,7 +348,7 @@ def in_runner(script):
         elif "error" not in o:
             o["error"] = {"type": "NoEvent", "msg": "nothing reached the server"}
         results[i] = o
-    for j, oc in enumerate(script["own_calls"]):
+    for j, oc in enumerate(script["own_calls"] if gc is not None else []):
         mark = srv.mark()
         try:
             getattr(gc, oc["method"])(request={"resource": "things/t1"})
@@ -306,6 +359,8 @@ def in_runner(script):
             own_results[j]["grpc"]["path"] = evs[0]["method"]
 
     async def amain():
+        if not script.get("grpc", True):
+            return
         ac = lib.aio_client("Vault", srv.target)
         for i, c in enumerate(script["calls"]):
             if c["transport"] != "aio":
